@@ -516,7 +516,7 @@ pub fn run_check(id: &str, tier: &str, seed: u64) -> i32 {
                 v.detail = format!("[classification product case] {}", v.detail);
             }
             merge(&mut agg, prod);
-            conclude(id, tier, seed, "exploration", &agg, &rules, "the finite product invoice{amount present/absent} x signer{payee, explicit payee, explicit payee signed by another key, signature recovering to another key} x hints{none, other, self last, self not last, other then self last} x hash{equal, different} x amount field{absent, equal, +1, -1, padded equal, empty, 9 bytes, single zero byte} x allow_self x forward_msat{present, absent} (2560 cases, each one funded single-HTLC run, pay failing in half of them so that the reported payee is observed), plus random seeded runs of the Classify/Hashes profiles; distinct_nontrivial = distinct abstract traces among runs in which R10 was evaluated", sim_assumptions(), t0, json!({"classification_product_cases": n_prod}), None)
+            conclude(id, tier, seed, "exploration", &agg, &rules, "the finite product invoice{amount present/absent} x signer{payee, explicit payee, explicit payee signed by another key, signature recovering to another key, explicit payee with the other recovery id} x hints{none, other, self last, self not last, other then self last} x hash{equal, different} x amount field{absent, equal, +1, -1, padded equal, empty, 9 bytes, single zero byte} x allow_self x forward_msat{present, absent} (3200 cases, each one funded single-HTLC run, pay failing in half of them so that the reported payee is observed), plus random seeded runs of the Classify/Hashes profiles; distinct_nontrivial = distinct abstract traces among runs in which R10 was evaluated", sim_assumptions(), t0, json!({"classification_product_cases": n_prod}), None)
         }
         "C11" => sim(&[Timeout, Mixed], &["R11a", "R11b", "R11c"], n(80_000, 1_500_000), rt, "exploration"),
         "C13" => sim(&[PassThrough, Mixed], &["R13a", "R13b"], n(80_000, 1_500_000), rt, "exploration"),
